@@ -889,9 +889,31 @@ def deque_model(it, args, kwargs):
 
 
 def fresh_outcome(it):
+    from .verify import TASK_OUTCOMES
     z = z3.Int(fresh_name("task_outcome"))
     it.ctx.assume(z3.And(z >= 0, z < 3))
-    return SEnum("task_outcome", ["returned", "Exception", "CancelledError"], z)
+    return SEnum("task_outcome", list(TASK_OUTCOMES), z)
+
+
+def finish_task(it, tref, by_await=True):
+    """The task ends now: cancelled if cancellation was requested while it was pending."""
+    h = it.ctx.deref(tref)
+    f = h.fields
+    d = it.truth(f["_done"])
+    if d is True:
+        return
+    if d is not False and it.ctx.branch(d, "task already done"):
+        f["_done"] = True
+        return
+    it.ctx.mutate()
+    if f.get("cancel_requested"):
+        f["_outcome"] = VEnum("task_outcome", "CancelledError")
+    f["_done"] = True
+
+
+def await_task(it, tref):
+    finish_task(it, tref)
+    return task_method(it, tref, it.ctx.deref(tref), "result", [], {})
 
 
 def task_method(it, ref, h, name, args, kwargs):
@@ -936,14 +958,18 @@ def call_asyncio(it, name, args, kwargs):
         _use(it, "model:asyncio.create_task returns a fresh task that is not done; the coroutine is started "
                  "(calls it makes to scripted collaborators are recorded at creation)")
         co = args[0]
+        outcome = None
         if isinstance(co, Coro):
-            # the task is in flight from now on: what it calls on scripted collaborators is recorded here
+            # the task is in flight from now on: what it calls on scripted collaborators is recorded here,
+            # and how the coroutine ends is how the task will end
             try:
                 it.engine.run_coro(it, co)
-            except PyRaise:
-                pass
+                outcome = VEnum("task_outcome", "returned")
+            except PyRaise as e:
+                if isinstance(e.cls, str):
+                    outcome = VEnum("task_outcome", e.cls)
         t = it.ctx.alloc(HObj("ext:asyncio.Task", {
-            "_done": False, "_outcome": fresh_outcome(it),
+            "_done": False, "_outcome": outcome if outcome is not None else fresh_outcome(it),
             "callbacks": it.ctx.alloc(HList([])), "cancel_requested": False, "name": kwargs.get("name", Opaque("task-name")),
             "__methods__": {}, "__stream__": None, "calls": it.ctx.alloc(HList([])), "results": it.ctx.alloc(HList([]))}))
         created = it.ctx.ghost.setdefault("created_tasks", it.ctx.alloc(HList([])))
@@ -958,6 +984,9 @@ def call_asyncio(it, name, args, kwargs):
             results = []
             for co in coros:
                 try:
+                    if isinstance(co, VRef) and isinstance(it.ctx.deref(co), HObj) and it.ctx.deref(co).cls == "ext:asyncio.Task":
+                        results.append(await_task(it, co))
+                        continue
                     results.append(it.engine.await_value(it, co, None))
                 except PyRaise as e:
                     if not ret_exc or not isinstance(e.cls, str):
@@ -967,6 +996,26 @@ def call_asyncio(it, name, args, kwargs):
                     results.append(e.value if isinstance(e.value, ExcValue) else ExcValue(e.cls))
             return it.ctx.alloc(HList(results))
         return Coro(run, label="gather")
+    if name == "wait":
+        _use(it, "model:asyncio.wait(ALL_COMPLETED, timeout): every task either finishes before the timeout (done) or is "
+                 "still pending; without timeout all are done")
+        tasks = it.iterate_concrete(args[0])
+        timeout = kwargs.get("timeout")
+
+        def run_wait():
+            done, pending = [], []
+            for t in tasks:
+                h = it.ctx.deref(t)
+                d = it.truth(h.fields["_done"])
+                if d is True or (d is not False and it.ctx.branch(d, "task already done")):
+                    done.append(t)
+                elif timeout is None or it.ctx.choose("task finishes before the timeout"):
+                    finish_task(it, t)
+                    done.append(t)
+                else:
+                    pending.append(t)
+            return (it.ctx.alloc(HSet(done)), it.ctx.alloc(HSet(pending)))
+        return Coro(run_wait, label="wait")
     if name == "sleep":
         _use(it, "model:asyncio.sleep returns None (may be cancelled only where the contract says so)")
         return Coro(lambda: None, label="sleep")
@@ -1271,7 +1320,13 @@ def call_builtin(it, name, args, kwargs):
     if name == "callable":
         return isinstance(args[0], (FuncRef, ClassRef, ExtRef, BoundBuiltin, ModelCallable))
     if name == "type":
-        raise Unsupported("type()")
+        v = it.unwrap(args[0])
+        qual = v.cls if isinstance(v, VRec) else (it.ctx.deref(v).cls if isinstance(v, VRef) and isinstance(it.ctx.deref(v), HObj) else None)
+        if qual is None or ":" not in qual:
+            raise Unsupported("type() of a non-repository object")
+        modname, cname = qual.split(":")
+        mi = it.engine.repo.find(modname)
+        return ClassRef(mi, cname, mi.classes[cname])
     if name in ("getattr",):
         if isinstance(args[1], str):
             try:
